@@ -334,7 +334,7 @@ func (r restorer) restore()
 -- formatter flags, width and precision as on entry
 pred KF(p *pp) = p.fmt.wid == old(p.fmt.wid) && p.fmt.prec == old(p.fmt.prec) && p.fmt.widPresent == old(p.fmt.widPresent) && p.fmt.precPresent == old(p.fmt.precPresent) && p.fmt.minus == old(p.fmt.minus) && p.fmt.plus == old(p.fmt.plus) && p.fmt.sharp == old(p.fmt.sharp) && p.fmt.space == old(p.fmt.space) && p.fmt.zero == old(p.fmt.zero) && p.fmt.plusV == old(p.fmt.plusV) && p.fmt.sharpV == old(p.fmt.sharpV)
 -- panic/error bookkeeping as on entry
-pred KE(p *pp) = p.panicking == old(p.panicking)
+pred KE(p *pp) = p.panicking == old(p.panicking) && (!old(p.erroring) ==> !p.erroring)
 -- while an error report is being printed (erroring) with %v, no user method runs: nothing panics and the flag stays
 pred EV(p *pp, verb int) = old(p.erroring) && verb == 118 ==> !$panic && p.erroring
 -- the three states of %w capture (C15): none seen / exactly one, good / otherwise disabled for good
@@ -398,7 +398,8 @@ func newPrinter() (r *pp)
   ensures inv(r.buf)
 
 func (p *pp) free()
-  requires p.override == 0 && p.buf.gctx == 0 && WP(p.fmt)
+  requires [C02,C05,C06,C12] p.override == 0 && p.buf.gctx == 0
+  requires WP(p.fmt)
   assert [C12] PoolInv(p) && WP(p.fmt) before "ppFree.Put(p)"
 
 func (p *pp) Width() (wid int, ok bool)
@@ -453,6 +454,7 @@ func (p *pp) fmtBool(v bool, verb rune)
   ensures B(p) && Same(p) && WP(p.fmt)
   ensures KF(p) && KW(p) && p.panicking == old(p.panicking)
   ensures [C11] verb == 118 ==> p.erroring == old(p.erroring)
+  ensures !old(p.erroring) ==> !p.erroring
 
 func (p *pp) fmt0x64(v uint64, leading0x bool)
   requires PI(p) && WP(p.fmt)
@@ -465,6 +467,7 @@ func (p *pp) fmtInteger(v uint64, isSigned bool, verb rune)
   ensures PI(p) && Same(p) && WP(p.fmt)
   ensures KF(p) && KW(p) && p.panicking == old(p.panicking)
   ensures [C11] verb == 118 ==> p.erroring == old(p.erroring)
+  ensures !old(p.erroring) ==> !p.erroring
 
 func (p *pp) fmtFloat(v float64, size int, verb rune)
   public verb
@@ -473,6 +476,7 @@ func (p *pp) fmtFloat(v float64, size int, verb rune)
   ensures PI(p) && Same(p) && WP(p.fmt)
   ensures KF(p) && KW(p) && p.panicking == old(p.panicking)
   ensures [C11] verb == 118 ==> p.erroring == old(p.erroring)
+  ensures !old(p.erroring) ==> !p.erroring
 
 func (p *pp) fmtComplex(v complex128, size int, verb rune)
   public verb
@@ -480,6 +484,7 @@ func (p *pp) fmtComplex(v complex128, size int, verb rune)
   ensures B(p) && Same(p) && WP(p.fmt)
   ensures KF(p) && KW(p) && p.panicking == old(p.panicking)
   ensures [C11] verb == 118 ==> p.erroring == old(p.erroring)
+  ensures !old(p.erroring) ==> !p.erroring
 
 func (p *pp) fmtString(v string, verb rune)
   public verb
@@ -488,6 +493,7 @@ func (p *pp) fmtString(v string, verb rune)
   ensures PI(p) && Same(p) && WP(p.fmt)
   ensures KF(p) && KW(p) && p.panicking == old(p.panicking)
   ensures [C11] verb == 118 ==> p.erroring == old(p.erroring)
+  ensures !old(p.erroring) ==> !p.erroring
 
 func (p *pp) fmtBytes(v []byte, verb rune, typeString string)
   public verb, typeString
@@ -501,6 +507,7 @@ func (p *pp) fmtBytes(v []byte, verb rune, typeString string)
   ensures [C15] verb != 119 ==> KW(p)
   ensures [C15] old(WDead(p)) ==> WDead(p)
   ensures-always [C11] EV(p, verb)
+  ensures !old(p.erroring) ==> !p.erroring
 
 func (p *pp) fmtPointer(value reflect.Value, verb rune)
   public verb
@@ -509,6 +516,7 @@ func (p *pp) fmtPointer(value reflect.Value, verb rune)
   ensures B(p) && Same(p) && WP(p.fmt)
   ensures KF(p) && KW(p) && p.panicking == old(p.panicking)
   ensures [C11] verb == 118 && (value.Kind() == 18 || value.Kind() == 19 || value.Kind() == 21 || value.Kind() == 22 || value.Kind() == 23 || value.Kind() == 26) ==> p.erroring == old(p.erroring)
+  ensures !old(p.erroring) ==> !p.erroring
 @*/
 
 /*@
@@ -653,10 +661,14 @@ func (p *pp) doPrintf(format string, a []interface{})
   ensures [C15] WInv(p) && p.gw0 == old(p.gw0)
   requires PI(p) && !p.panicking && !p.erroring && WP(p.fmt)
   may-panic
-  loop 1 invariant Lp(p) && 0 <= i && i <= end && end == len(format) && 0 <= argNum && WInv(p) && p.gw0 == old(p.gw0)
-  loop 2 invariant Lp(p) && 0 <= i && i <= end && end == len(format) && 0 <= argNum && lasti <= i && WInv(p) && p.gw0 == old(p.gw0)
-  loop 3 invariant Lp(p) && 0 <= i && i <= end && end == len(format) && 0 <= argNum && WInv(p) && p.gw0 == old(p.gw0)
-  loop 4 invariant Lp(p) && WInv(p) && p.gw0 == old(p.gw0)
+  loop 1 invariant Lp(p) && 0 <= i && i <= end && end == len(format) && 0 <= argNum
+  loop 1 invariant [C15,C05] WInv(p) && p.gw0 == old(p.gw0)
+  loop 2 invariant Lp(p) && 0 <= i && i <= end && end == len(format) && 0 <= argNum && lasti <= i
+  loop 2 invariant [C15,C05] WInv(p) && p.gw0 == old(p.gw0)
+  loop 3 invariant Lp(p) && 0 <= i && i <= end && end == len(format) && 0 <= argNum && !p.fmt.sharpV && !p.fmt.plusV
+  loop 3 invariant [C15,C05] WInv(p) && p.gw0 == old(p.gw0)
+  loop 4 invariant Lp(p)
+  loop 4 invariant [C15,C05] WInv(p) && p.gw0 == old(p.gw0)
   ensures-always [C05,C06] PI(p) && p.override == old(p.override) && p.buf.gctx == old(p.buf.gctx) && (p.buf.gctx != 2 ==> p.buf.mode == SafeEscaped)
   ensures-always [C11] $panic ==> p.panicking
   ensures !p.panicking && WP(p.fmt)
